@@ -33,6 +33,9 @@ pub enum Trial {
     ExitContract { specs: Vec<ExecSpec>, kinds: Vec<String>, class: String, exit_code: Option<i32>, label: String },
     /// C16: invalid option combination: rejected with non-zero status before any output is written.
     Rejected { spec: ExecSpec, label: String },
+    /// C13: stave-level frame verdicts equal the encoder's ground truth; the verdict and the
+    /// readout-flag counters do not depend on the pixel-hit content (runs differ only in it).
+    Alpide { runs: Vec<AlpideRun>, flags: Vec<u64>, label: String },
     /// C06: per-link findings are the same in every setting. `runs[0]` is the reference (a full run
     /// on one merge); each other run is compared for the groups named in its role.
     Isolate { runs: Vec<(IsoRole, ExecSpec)>, by_fee: bool, label: String },
@@ -82,6 +85,28 @@ pub enum Trial {
     StatsTruth { spec: ExecSpec, analysed: bool, label: String },
     /// C18: input ends after k bytes, for each k in `cuts`.
     Truncate { full: ExecSpec, cuts: Vec<u64>, allowed_status: Vec<i32>, rows_mode: bool, label: String },
+}
+
+#[derive(Serialize, Deserialize, Clone, Debug)]
+pub struct AlpideRun {
+    pub spec: ExecSpec,
+    pub frames: Vec<FrameExpect>,
+    /// readout-flag counters computed from the chips of the frames this variant contains
+    pub flags: Vec<u64>,
+}
+
+#[derive(Serialize, Deserialize, Clone, Debug, PartialEq)]
+pub struct FrameExpect {
+    /// offset of the frame start (the TDH that opens the frame)
+    pub offset: u64,
+    /// code of the lane-count / grouping message expected there (E72 / E73), if any
+    pub lanes_code: Option<String>,
+    /// code of the lane-error message expected there (E74 / E75), if any
+    pub lane_err_code: Option<String>,
+    /// E900x codes the lane-error message must carry
+    pub sub_codes: Vec<String>,
+    pub empty: bool,
+    pub dont_care: bool,
 }
 
 #[derive(Serialize, Deserialize, Clone, Debug, PartialEq)]
@@ -331,6 +356,7 @@ impl Trial {
             Trial::Rejected { spec, label } => crate::t_exit::run_rejected(ex, spec, label),
             Trial::Truthful { spec, label } => crate::t_stream::run_truthful(ex, spec, label),
             Trial::Isolate { runs, by_fee, label } => crate::t_isolate::run_isolate(ex, runs, *by_fee, label),
+            Trial::Alpide { runs, flags, label } => run_alpide(ex, runs, flags, label),
             Trial::Fault { runs, expects, silent_in_sanity, silent_in_sanity_no_target, exit_code, fault } => {
                 run_fault(ex, runs, expects, *silent_in_sanity, *silent_in_sanity_no_target, *exit_code, fault)
             }
@@ -370,6 +396,7 @@ impl Trial {
             Trial::RdhWalk { spec, .. } => vec![spec],
             Trial::Fault { runs, .. } => runs.iter_mut().map(|(_, s)| s).collect(),
             Trial::Isolate { runs, .. } => runs.iter_mut().map(|(_, s)| s).collect(),
+            Trial::Alpide { runs, .. } => runs.iter_mut().map(|r| &mut r.spec).collect(),
             Trial::FsmWalk { .. } => vec![],
             Trial::ExcessPadding { spec, .. } => vec![spec],
             Trial::Views { plain, styled, .. } => vec![plain, styled],
@@ -469,6 +496,10 @@ impl Trial {
                 "runs": kinds, "exec": s(&specs[0])}),
             Trial::Rejected { spec, label } => json!({"trial": "rejected", "label": label, "exec": s(spec)}),
             Trial::Truthful { spec, label } => json!({"trial": "truthful", "label": label, "exec": s(spec)}),
+            Trial::Alpide { runs, flags, label } => json!({
+                "trial": "alpide", "label": label, "frames": runs[0].frames.len(),
+                "frames_with_broken_rule": runs[0].frames.iter().filter(|f| f.lanes_code.is_some() || f.lane_err_code.is_some() || f.empty).count(),
+                "readout_flag_truth": flags, "hit_content_variants": runs.len(), "exec": s(&runs[0].spec)}),
             Trial::Isolate { runs, by_fee, label } => json!({
                 "trial": "isolate", "label": label, "group_by": if *by_fee { "FEE ID" } else { "link" },
                 "runs": runs.iter().map(|(r, sp)| json!({"role": format!("{r:?}"), "cmdline": sp.cmdline(), "input_bytes": sp.input.len(), "sequential_pass": sp.seq_pass})).collect::<Vec<_>>()}),
@@ -1127,6 +1158,124 @@ fn run_fault(
                     errs.first().map(|m| clip(&m.text))
                 ),
             ));
+            return out;
+        }
+    }
+    out
+}
+
+fn run_alpide(ex: &mut Executor, runs: &[AlpideRun], flags: &[u64], label: &str) -> TrialOutcome {
+    let mut out = TrialOutcome { labels: vec![label.to_string()], ..Default::default() };
+    const FRAME_CODES: [&str; 5] = ["E72", "E73", "E74", "E75", "E701"];
+    for (i, run) in runs.iter().enumerate() {
+        let r = ex.exec(&run.spec);
+        if i == 0 {
+            out.key = case_key(&run.spec.input, &r);
+            out.nontrivial = !run.frames.is_empty() && r.outcome.threads >= 4;
+        }
+        if let Some(f) = check_orderly(&r) {
+            out.fail = Some(f);
+            return out;
+        }
+        let errs = oracle::error_msgs(&r.stderr);
+        let cmd = run.spec.cmdline();
+        let variant = if i == 0 { "" } else { " (other pixel-hit content)" };
+        let starts: Vec<u64> = run.frames.iter().map(|f| f.offset).collect();
+        for (k, fe) in run.frames.iter().enumerate() {
+            if fe.dont_care {
+                continue;
+            }
+            // several frames can share a start when a no-data TDH keeps a frame open: judge such
+            // offsets only through the last frame that starts there... they cannot: each closed
+            // frame re-opens at a later TDH. Offsets are unique.
+            let here: Vec<&oracle::ErrMsg> = errs
+                .iter()
+                .filter(|m| m.offset == Some(fe.offset))
+                .filter(|m| m.codes.first().map_or(false, |c| FRAME_CODES.contains(&c.as_str())))
+                .collect();
+            let mut want: Vec<String> = Vec::new();
+            if fe.empty {
+                want.push("E701".into());
+            }
+            if let Some(c) = &fe.lanes_code {
+                want.push(c.clone());
+            }
+            if let Some(c) = &fe.lane_err_code {
+                want.push(c.clone());
+            }
+            let mut got: Vec<String> = here.iter().map(|m| m.codes[0].clone()).collect();
+            got.sort();
+            want.sort();
+            if got != want {
+                let site = if want.is_empty() {
+                    "legal-frame-rejected".to_string()
+                } else if got.is_empty() {
+                    format!("broken-frame-accepted-{}", want.join("+"))
+                } else {
+                    "wrong-frame-verdict".to_string()
+                };
+                out.fail = Some(Fail::new(
+                    "frame-verdict",
+                    &site,
+                    format!(
+                        "frame #{k} starting at {:#X}{variant}: encoder truth expects {want:?}, tool reports {got:?} there (first: {:?}) [cmd: {cmd}]",
+                        fe.offset,
+                        here.first().map(|m| clip(&m.text))
+                    ),
+                ));
+                return out;
+            }
+            if let Some(m) = here.iter().find(|m| Some(&m.codes[0]) == fe.lane_err_code.as_ref()) {
+                for sc in &fe.sub_codes {
+                    if !m.text.contains(&format!("[{sc}]")) {
+                        out.fail = Some(Fail::new(
+                            "frame-verdict",
+                            &format!("missing-{sc}"),
+                            format!("frame #{k} at {:#X}{variant}: lane-error message lacks [{sc}]: {} [cmd: {cmd}]", fe.offset, clip(&m.text)),
+                        ));
+                        return out;
+                    }
+                }
+            }
+        }
+        // no frame-level message anywhere else
+        if let Some(m) = errs.iter().find(|m| {
+            m.codes.first().map_or(false, |c| ["E73", "E74", "E75", "E701"].contains(&c.as_str()))
+                && m.offset.map_or(true, |o| !starts.contains(&o))
+        }) {
+            out.fail = Some(Fail::new(
+                "frame-verdict",
+                "frame-message-not-at-frame-start",
+                format!("frame-level message away from every frame start{variant}: {} [cmd: {cmd}]", clip(&m.text)),
+            ));
+            return out;
+        }
+        // readout-flag counters
+        if let Some(st) = r.stats_file.as_ref().and_then(|b| oracle::parse_stats(b, &run.spec.stats_ext)) {
+            let rf = oracle::stats_get(&st, &["alpide_stats", "readout_flags"]);
+            let names = [
+                "chip_trailers_seen",
+                "busy_violations",
+                "data_overrun",
+                "transmission_in_fatal",
+                "flushed_incomplete",
+                "strobe_extended",
+                "busy_transitions",
+            ];
+            for (j, n) in names.iter().enumerate() {
+                let got = rf.and_then(|v| v.get(n)).and_then(|v| v.as_u64());
+                let _ = flags;
+                if got != Some(run.flags[j]) {
+                    out.fail = Some(Fail::new(
+                        "alpide-stats",
+                        &format!("readout-flags-{n}"),
+                        format!("alpide_stats.{n} = {got:?}{variant}, chip trailers of the encoder give {} [cmd: {cmd}]", run.flags[j]),
+                    ));
+                    return out;
+                }
+            }
+        } else {
+            out.fail = Some(Fail::new("alpide-stats", "stats-file-missing", format!("no statistics file [cmd: {cmd}]")));
             return out;
         }
     }
